@@ -9,10 +9,10 @@
        trace_parses (the visible trace of every thread parses into its calls: executable checker trace_ok)
    3.  sticky, stale_reader_harmless, current_reader_reports, error_is_sticky(_enabled),
        reconnect_clears, reconnect_failure_sets
-   2.  no_session
+   2.  no_session, session_captured, error_check_passes (Send: error check at XIdle, session read at XSendChecked)
    4.  connect_refused, new_only_without_session, failed_dial_no_session, close_logged, lifecycle
    6.  lockset, writes_under_lock, reads_outside_writer, no_deadlock, worker_blocked_only_by_lock
-   7.  examples by vm_compute (ex1..ex5, ex_trace_*, model_gap_send_window)
+   7.  examples by vm_compute (ex1..ex5, ex4', ex_trace_*, send_window_now_modelled)
    No axioms: every main theorem is "Closed under the global context" (end of file). *)
 From Coq Require Import List Arith NArith Lia Bool.
 From FF Require Import model.Bytes model.Lts model.WsClient model.WsClientSpec proofs.Bytes_Proofs.
@@ -102,7 +102,7 @@ Definition head_dial (l : xlocal) : bool :=
 
 (* worker program counters / program counters holding the exclusive session lock *)
 Definition wpc (p : xpc) : bool :=
-  match p with XIdle | XSendHave _ | XSendWrite _ | XAnnounced | XExcl | XDiscClosedQ _ | XDiscClose _ | XDial => true | _ => false end.
+  match p with XIdle | XSendChecked | XSendHave _ | XSendWrite _ | XAnnounced | XExcl | XDiscClosedQ _ | XDiscClose _ | XDial => true | _ => false end.
 Definition epc (p : xpc) : bool :=
   match p with XExcl | XDiscClosedQ _ | XDiscClose _ | XDial => true | _ => false end.
 
@@ -139,6 +139,7 @@ Section Invariant.
     (wpc (x_pc l) = true <-> t < n) /\
     match x_pc l with
     | XIdle => True
+    | XSendChecked => head_send l = true
     | XSendHave s => head_send l = true /\ s < length (xg_sessions g)
     | XSendWrite s => head_write l = true /\ s < length (xg_sessions g)
     | XAnnounced => rw_pending (xg_SL g) = Some t /\ head_life l = true
@@ -363,7 +364,7 @@ Proof. intro H. apply reach_ginv in H. apply (gi_panic _ _ H). Qed.
 (* the defect D16: Send re-reads c.session for the Write.  Thread 0 connects and starts a
    Send (Closed() answered false); thread 1 disconnects; thread 0 dereferences nil. *)
 Definition panic_progs : list (list xop) := [[XConnect true; XSend (Some [x01]) true]; [XDisconnect]].
-Definition panic_sched : list nat := [0;0;0;0; 0;0; 1;1;1;1;1; 0].
+Definition panic_sched : list nat := [0;0;0;0; 0;0;0; 1;1;1;1;1; 0].
 
 Theorem pinned_panics :
   reach true panic_progs [] 1 (fst (xs_exec true 2 (xinit panic_progs [] 1) panic_sched)) /\
@@ -403,7 +404,7 @@ Theorem repaired_is_not_poisoned :
   let r := xs_exec false 1 (xinit poison_progs poison_plan 2) poison_sched in
   xg_err (glob (fst r)) = false /\ xg_sess (glob (fst r)) = Some 1 /\
   map x_rets (firstn 1 (thr (fst r))) = [[0; 0]%N] /\
-  map x_pc (thr (fst r)) = [XSendHave 1; XBgDone; XBgNotSpawned].
+  map x_pc (thr (fst r)) = [XSendChecked; XBgDone; XBgNotSpawned].
 Proof. vm_compute. repeat split. Qed.
 
 (* ====================================================================================== *)
@@ -750,13 +751,38 @@ Qed.
 (* ====================================================================================== *)
 (* 2. no session                                                                           *)
 (* ====================================================================================== *)
+(* Send/SendRaw has passed the error check and reads c.session (Session(): RLock, read, RUnlock):
+   without session the call finishes with "no active session" and touches nothing *)
 Theorem no_session n c t l c' e :
-  nth_error (thr c) t = Some l -> x_pc l = XIdle -> head_send l = true ->
-  xg_err (glob c) = false -> xg_sess (glob c) = None ->
+  nth_error (thr c) t = Some l -> x_pc l = XSendChecked -> xg_sess (glob c) = None ->
   xs_step false n c t = Some (c', e) ->
   e = None /\ glob c' = glob c /\ nth_error (thr c') t = Some (xfin l 1%N).
 Proof.
-  intros Hl Hpc Hh He Hse H. destruct (xs_step_inv' _ _ _ _ _ _ _ Hl H) as (g' & l' & Hs & -> & Hl').
+  intros Hl Hpc Hse H. destruct (xs_step_inv' _ _ _ _ _ _ _ Hl H) as (g' & l' & Hs & -> & Hl').
+  destruct c as [g ths]; cbn [glob thr] in *.
+  unfold xstep in Hs. rewrite Hpc in Hs.
+  xstep_destruct Hs; inversion Hs; subst; clear Hs; try discriminate; try congruence; auto.
+Qed.
+
+(* with a session it captures that session (and nothing else happens) *)
+Theorem session_captured n c t l s c' e :
+  nth_error (thr c) t = Some l -> x_pc l = XSendChecked -> xg_sess (glob c) = Some s ->
+  xs_step false n c t = Some (c', e) ->
+  e = None /\ glob c' = glob c /\ nth_error (thr c') t = Some (xat l (XSendHave s)).
+Proof.
+  intros Hl Hpc Hse H. destruct (xs_step_inv' _ _ _ _ _ _ _ Hl H) as (g' & l' & Hs & -> & Hl').
+  destruct c as [g ths]; cbn [glob thr] in *.
+  unfold xstep in Hs. rewrite Hpc, Hse in Hs.
+  xstep_destruct Hs; inversion Hs; subst; clear Hs; try discriminate; try congruence; auto.
+Qed.
+
+(* a Send/SendRaw whose error check passes does not touch the session lock in that step *)
+Theorem error_check_passes n c t l c' e :
+  nth_error (thr c) t = Some l -> x_pc l = XIdle -> head_send l = true -> xg_err (glob c) = false ->
+  xs_step false n c t = Some (c', e) ->
+  e = None /\ glob c' = glob c /\ nth_error (thr c') t = Some (xat l XSendChecked).
+Proof.
+  intros Hl Hpc Hh He H. destruct (xs_step_inv' _ _ _ _ _ _ _ Hl H) as (g' & l' & Hs & -> & Hl').
   destruct c as [g ths]; cbn [glob thr] in *. unfold head_send in Hh.
   unfold xstep in Hs. rewrite Hpc in Hs.
   xstep_destruct Hs; inversion Hs; subst; clear Hs; try discriminate; try congruence; auto.
@@ -881,15 +907,14 @@ Qed.
 (* c.session is READ (by Send/SendRaw and by the reader's report) only while no writer holds or awaits the lock *)
 Theorem reads_outside_writer n c t l c' e :
   nth_error (thr c) t = Some l ->
-  (x_pc l = XIdle /\ head_send l = true /\ xg_err (glob c) = false) \/ (exists s, x_pc l = XBgReport s) ->
+  x_pc l = XSendChecked \/ (exists s, x_pc l = XBgReport s) ->
   xs_step false n c t = Some (c', e) ->
   rw_writer (xg_SL (glob c)) = None /\ rw_pending (xg_SL (glob c)) = None.
 Proof.
   intros Hl Hc H. destruct (xs_step_inv' _ _ _ _ _ _ _ Hl H) as (g' & l' & Hs & -> & Hl').
   destruct c as [g ths]; cbn [glob thr] in *.
-  unfold xstep in Hs. destruct Hc as [(Hpc & Hh & He) | (s & Hpc)]; rewrite Hpc in Hs.
-  - unfold head_send in Hh. rewrite He in Hs.
-    xstep_destruct Hs; try discriminate; match goal with H : rlock _ _ = Some _ |- _ => apply rlock_some in H; exact H end.
+  unfold xstep in Hs. destruct Hc as [Hpc | (s & Hpc)]; rewrite Hpc in Hs.
+  - xstep_destruct Hs; match goal with H : rlock _ _ = Some _ |- _ => apply rlock_some in H; exact H end.
   - xstep_destruct Hs; match goal with H : rlock _ _ = Some _ |- _ => apply rlock_some in H; exact H end.
 Qed.
 
@@ -898,7 +923,7 @@ Qed.
 Lemma blocked_char n g t l :
   xg_panic g = false -> rw_readers (xg_SL g) = [] -> linv n g t l -> xdone l = false ->
   xstep false n g t l = None ->
-  (x_pc l = XIdle /\ (rw_writer (xg_SL g) <> None \/ rw_pending (xg_SL g) <> None))
+  ((x_pc l = XIdle \/ x_pc l = XSendChecked) /\ (rw_writer (xg_SL g) <> None \/ rw_pending (xg_SL g) <> None))
   \/ (exists s, x_pc l = XBgReport s /\ (rw_writer (xg_SL g) <> None \/ rw_pending (xg_SL g) <> None))
   \/ (exists s, x_pc l = XBgListening s /\ s = t - n /\ s < length (xg_sessions g) /\
                 closed g s = false /\ xs_ends_alone (sess_get g s) = false).
@@ -909,11 +934,13 @@ Proof.
   destruct (x_pc l) eqn:Hpc; try discriminate; cbn in Lt; unfold head_send, head_write, head_life, head_disc, head_dial in *.
   - (* XIdle *) left. split; auto.
     destruct (x_ops l) as [|[] ?]; try discriminate.
-    + destruct (xg_err g); try discriminate. destruct (rlock (xg_SL g) t) eqn:E; [destruct (xg_sess g); discriminate | eauto].
-    + destruct (xg_err g); try discriminate. destruct (rlock (xg_SL g) t) eqn:E; [destruct (xg_sess g); discriminate | eauto].
+    + destruct (xg_err g); discriminate.
+    + destruct (xg_err g); discriminate.
     + unfold wannounce in Hs. destruct (rw_writer (xg_SL g)), (rw_pending (xg_SL g)); try discriminate; first [left; discriminate | right; discriminate].
     + unfold wannounce in Hs. destruct (rw_writer (xg_SL g)), (rw_pending (xg_SL g)); try discriminate; first [left; discriminate | right; discriminate].
     + unfold wannounce in Hs. destruct (rw_writer (xg_SL g)), (rw_pending (xg_SL g)); try discriminate; first [left; discriminate | right; discriminate].
+  - (* XSendChecked *) left. split; auto.
+    destruct (rlock (xg_SL g) t) eqn:E; [destruct (xg_sess g); discriminate | eauto].
   - (* XSendHave *) exfalso. destruct (xs_closed (sess_get g s)); try discriminate. destruct (x_ops l) as [|[[?|] ?|? ?|?| |?] ?]; discriminate.
   - (* XSendWrite *) exfalso. destruct (x_ops l) as [|[[?|] ?|? ?|?| |?] ?]; discriminate.
   - (* XAnnounced *) exfalso. destruct Lt as [Hpe _]. unfold wacquire in Hs. rewrite Hpe, Hr, Nat.eqb_refl in Hs. discriminate.
@@ -942,7 +969,7 @@ Proof.
   destruct (xstep false n (glob c) t l) as [[[? ?] ?]|] eqn:Hx; try discriminate.
   assert (Hd : xdone l = false). { unfold xdone. destruct (x_pc l); cbn in Hpc; destruct Hpc; try discriminate; auto. }
   destruct (blocked_char _ _ _ _ (gi_panic _ _ I) (gi_readers _ _ I) (gi_threads _ _ I _ _ Hl) Hd Hx)
-    as [(E & _) | [(s & E & _) | (s & E & _)]]; rewrite E in Hpc; cbn in Hpc; destruct Hpc; discriminate.
+    as [([E|E] & _) | [(s & E & _) | (s & E & _)]]; rewrite E in Hpc; cbn in Hpc; destruct Hpc; discriminate.
 Qed.
 
 Lemma deadlocked_all_blocked p n (c : xconfig) :
@@ -990,13 +1017,13 @@ Proof.
     + rewrite (gi_closed _ _ R s) in Hc; congruence.
 Qed.
 
-(* a worker is never blocked for good: it can only be blocked at the START of a call (XIdle) by the
-   exclusive lock, and then the thread holding or awaiting that lock is another thread that can move *)
+(* a worker is never blocked for good: it can only be blocked at the start of a life-cycle call (XIdle)
+   or where Send/SendRaw reads the session (XSendChecked), in both cases by the exclusive lock, and then the thread holding or awaiting that lock is another thread that can move *)
 Theorem worker_blocked_only_by_lock progs plan readers c t l :
   reach false progs plan readers c ->
   t < length progs -> nth_error (thr c) t = Some l -> xdone l = false ->
   xs_step false (length progs) c t = None ->
-  x_pc l = XIdle /\
+  (x_pc l = XIdle \/ x_pc l = XSendChecked) /\
   exists t0, t0 <> t /\ (rw_writer (xg_SL (glob c)) = Some t0 \/ rw_pending (xg_SL (glob c)) = Some t0) /\
              xs_step false (length progs) c t0 <> None.
 Proof.
@@ -1289,20 +1316,36 @@ Proof. vm_compute. reflexivity. Qed.
    Note: Connect does NOT clear the error a failed Reconnect left behind (as in the Go code). *)
 Definition ex4_progs := [[XConnect true; XSendRaw [x01] true; XSendRaw [x03] false];
                          [XSendRaw [x02] true; XReconnect false; XConnect true; XConnect true]].
+Definition ex4_sched : list nat := [0;0;0;0] ++ rr 3 [0; 1; 2; 3] ++ [0;0;0] ++ rr 20 [0; 1; 2; 3].
 Example ex4 :
-  let r := xs_exec false 2 (xinit ex4_progs [] 2) ([0;0;0;0] ++ rr 20 [0; 1; 2; 3]) in
+  let r := xs_exec false 2 (xinit ex4_progs [] 2) ex4_sched in
   outcome r =
   ([(XIdle, [0; 0; 4]%N); (XIdle, [0; 6; 0; 5]%N); (XBgDone, []); (XBgListening 1, [])], Some 1, true,
    [(0, 0, [x03]); (0, 1, [x02]); (0, 0, [x01])], [0],
-   [(0, XEvNew true); (0, XEvClosedQ 0 false); (1, XEvClosedQ 0 false); (2, XEvListen 0);
-    (0, XEvWrite 0 [x01]); (1, XEvWrite 0 [x02]); (0, XEvClosedQ 0 false); (0, XEvWrite 0 [x03]);
+   [(0, XEvNew true); (2, XEvListen 0); (0, XEvClosedQ 0 false); (1, XEvClosedQ 0 false);
+    (0, XEvWrite 0 [x01]); (0, XEvClosedQ 0 false); (1, XEvWrite 0 [x02]); (0, XEvWrite 0 [x03]);
     (1, XEvClosedQ 0 false); (1, XEvClose 0); (1, XEvNew false); (1, XEvNew true); (3, XEvListen 1)]) /\
   frames_account ex4_progs (fst r) = true /\ xs_deadlocked false 2 (fst r) = true.
 Proof. vm_compute. repeat split. Qed.
 
-(* a worker blocked at the start of a Send by the exclusive lock; the holder can move *)
+(* the same programs, plain round robin: the third Send of thread 0 passes the error check, is
+   blocked at XSendChecked by thread 1's failing Reconnect, and then finds no session: result 1
+   without any call on the environment (the window between getErr() and Session() in the Go code) *)
+Example ex4' :
+  let r := xs_exec false 2 (xinit ex4_progs [] 2) ([0;0;0;0] ++ rr 20 [0; 1; 2; 3]) in
+  outcome r =
+  ([(XIdle, [0; 0; 1]%N); (XIdle, [0; 6; 0; 5]%N); (XBgDone, []); (XBgListening 1, [])], Some 1, true,
+   [(0, 1, [x02]); (0, 0, [x01])], [0],
+   [(0, XEvNew true); (2, XEvListen 0); (0, XEvClosedQ 0 false); (1, XEvClosedQ 0 false);
+    (0, XEvWrite 0 [x01]); (1, XEvWrite 0 [x02]); (1, XEvClosedQ 0 false); (1, XEvClose 0);
+    (1, XEvNew false); (1, XEvNew true); (3, XEvListen 1)]) /\
+  frames_account ex4_progs (fst r) = true /\ trace_ok ex4_progs (fst r) (snd r) = true.
+Proof. vm_compute. repeat split. Qed.
+
+(* a worker blocked where Send reads the session (XSendChecked) by the exclusive lock; the holder can move *)
 Example ex5 :
-  let c := fst (xs_exec false 2 (xinit [[XConnect true]; [XSendRaw [x01] true]] [] 1) [0; 0]) in
+  let c := fst (xs_exec false 2 (xinit [[XConnect true]; [XSendRaw [x01] true]] [] 1) [0; 0; 1]) in
+  map x_pc (firstn 2 (thr c)) = [XExcl; XSendChecked] /\
   xs_step false 2 c 1 = None /\ rw_writer (xg_SL (glob c)) = Some 0 /\ xs_step false 2 c 0 <> None.
 Proof. vm_compute. repeat split. discriminate. Qed.
 
@@ -1311,9 +1354,12 @@ Example ex_trace_ok :
   (let r := xs_exec false 1 (xinit ex1_progs [] 1) (rr 30 [0; 1]) in trace_ok ex1_progs (fst r) (snd r)) = true /\
   (let r := xs_exec false 1 (xinit ex3_progs [(true, true); (false, false)] 2) ([0;0;0;0; 1;1;1;1] ++ rr 12 [0; 1; 2]) in
    trace_ok ex3_progs (fst r) (snd r)) = true /\
-  (let r := xs_exec false 2 (xinit ex4_progs [] 2) ([0;0;0;0] ++ rr 20 [0; 1; 2; 3]) in trace_ok ex4_progs (fst r) (snd r)) = true /\
+  (let r := xs_exec false 2 (xinit ex4_progs [] 2) ex4_sched in trace_ok ex4_progs (fst r) (snd r)) = true /\
   (* also in the middle of calls *)
-  (let r := xs_exec false 2 (xinit ex4_progs [] 2) ([0;0;0;0] ++ rr 4 [0; 1; 2; 3]) in trace_ok ex4_progs (fst r) (snd r)) = true.
+  (let r := xs_exec false 2 (xinit ex4_progs [] 2) ([0;0;0;0] ++ rr 2 [0; 1; 2; 3]) in
+   (trace_ok ex4_progs (fst r) (snd r), map x_pc (thr (fst r)))) = (true, [XSendHave 0; XSendHave 0; XBgListening 0; XBgNotSpawned]) /\
+  (let r := xs_exec false 2 (xinit ex4_progs [] 2) ([0;0;0;0] ++ rr 6 [0; 1; 2; 3]) in
+   (trace_ok ex4_progs (fst r) (snd r), map x_pc (thr (fst r)))) = (true, [XSendChecked; XExcl; XBgListening 0; XBgNotSpawned]).
 Proof. vm_compute. repeat split. Qed.
 
 (* ... and is not trivially true: a duplicated frame, a frame with other bytes, a frame on another
@@ -1334,7 +1380,7 @@ Proof. vm_compute. repeat split. Qed.
 (* the checker rejects the runs of the defective code: the panicking Send (Closed() = false, then
    neither a Write nor an encode error), and a Send that writes to the successor session *)
 Definition cross_progs : list (list xop) := [[XConnect true; XSendRaw [x01] true]; [XReconnect true]].
-Definition cross_sched : list nat := [0;0;0;0; 0;0; 1;1;1;1;1;1; 0].
+Definition cross_sched : list nat := [0;0;0;0; 0;0;0; 1;1;1;1;1;1; 0].
 Example ex_trace_rejects_pinned :
   (let r := xs_exec true 2 (xinit panic_progs [] 1) panic_sched in trace_ok panic_progs (fst r) (snd r)) = false /\
   (let r := xs_exec true 2 (xinit cross_progs [] 2) cross_sched in
@@ -1344,22 +1390,23 @@ Example ex_trace_rejects_pinned :
   = ([(0, 0, [x01])], [[0; 4]%N; [0%N]], true).
 Proof. vm_compute. repeat split. Qed.
 
-(* MODEL GAP (reported, not a property of the code): the model reads the error flag and c.session in
-   ONE micro-step, the Go code in two critical sections (getErr under errLock, then Session() under
-   sessionLock).  Thread 0 is about to Send on session 0 while thread 1 runs a failing Reconnect: in
-   the model the Send either captures session 0 (before), is blocked (during), or fails with the
-   sticky error 2 (after).  The Go interleaving getErr()=nil; [whole failed Reconnect]; Session()=nil
-   gives "no active session" (1) WITHOUT any Closed() query: this outcome has no counterpart here. *)
+(* The window between getErr() (errLock) and Session() (sessionLock) of the Go code is modelled
+   (program counter XSendChecked): thread 0 passes the error check of its Send on session 0, thread 1
+   runs a whole failing Reconnect (during which thread 0 is blocked), then thread 0 reads c.session = nil:
+   "no active session" (1) without any Closed() query, although the sticky error is set by now.
+   Taking the error check after the Reconnect instead gives the sticky error (2). *)
 Definition gap_progs : list (list xop) := [[XConnect true; XSendRaw [x01] true]; [XReconnect false]].
-Example model_gap_send_window :
-  let after k := fst (xs_exec false 2 (xinit gap_progs [] 1) ([0;0;0;0] ++ repeat 1 k)) in
-  let send_step k := match xs_step false 2 (after k) 0 with
-                     | Some (c', e) => Some (map (fun l => (x_pc l, x_rets l)) (firstn 1 (thr c')), e)
-                     | None => None
-                     end in
-  map send_step [0; 1; 2; 3; 4; 5; 6]
-  = [Some ([(XSendHave 0, [0%N])], None); None; None; None; None; None; Some ([(XIdle, [0; 2]%N)], None)].
-Proof. vm_compute. reflexivity. Qed.
+Example send_window_now_modelled :
+  let r := xs_exec false 2 (xinit gap_progs [] 1) ([0;0;0;0; 0] ++ repeat 1 6 ++ [0]) in
+  let blocked k := match xs_step false 2 (fst (xs_exec false 2 (xinit gap_progs [] 1) ([0;0;0;0; 0] ++ repeat 1 k))) 0 with
+                   | Some _ => false | None => true end in
+  outcome r =
+  ([(XIdle, [0; 1]%N); (XIdle, [6%N]); (XBgNotSpawned, [])], None, true, [], [0],
+   [(0, XEvNew true); (1, XEvClosedQ 0 false); (1, XEvClose 0); (1, XEvNew false)]) /\
+  trace_ok gap_progs (fst r) (snd r) = true /\
+  map blocked [0; 1; 2; 3; 4; 5; 6] = [false; true; true; true; true; true; false] /\
+  map x_rets (firstn 1 (thr (fst (xs_exec false 2 (xinit gap_progs [] 1) ([0;0;0;0] ++ repeat 1 6 ++ [0]))))) = [[0; 2]%N].
+Proof. vm_compute. repeat split. Qed.
 
 Print Assumptions reach_ginv.
 Print Assumptions no_panic.
@@ -1378,6 +1425,8 @@ Print Assumptions error_is_sticky_enabled.
 Print Assumptions reconnect_clears.
 Print Assumptions reconnect_failure_sets.
 Print Assumptions no_session.
+Print Assumptions session_captured.
+Print Assumptions error_check_passes.
 Print Assumptions connect_refused.
 Print Assumptions new_only_without_session.
 Print Assumptions failed_dial_no_session.
